@@ -171,6 +171,14 @@ func runPlan(w *world, cm wazero.CompiledModule, p *plan.Plan) string {
 			return fmt.Sprintf("cell %d = %d, model has %d", c, int32(v), in.Cells[c])
 		}
 	}
+	for pg := 1; pg < in.Pages; pg++ {
+		for c := 0; c < plan.NFar; c++ {
+			v, _ := mod.Memory().ReadUint32Le(uint32(plan.FarAddr(int32(pg), int32(c))))
+			if int32(v) != in.Far[pg][c] {
+				return fmt.Sprintf("page %d far cell %d = %d, model has %d", pg, c, int32(v), in.Far[pg][c])
+			}
+		}
+	}
 	return ""
 }
 
